@@ -179,8 +179,50 @@ Definition c05_task_passed_means_done (c : case) : bool :=
     end
   else true.
 
+(* C03: the traffic-routing state (or the one behind it) is entered from the init / upgrade state only when the BatchRelease
+   for exactly this step reported its pods Ready -- the C02 gate, evaluated on reconciles with traffic routing *)
+Definition c03_entered_after_ready (c : case) : bool :=
+  let i := x_inner c in let o := rc_obs i in
+  if in_rolling_normal c then
+    match sub_of (rc_status i), sub_of (ob_status o) with
+    | Some u, Some v =>
+      if (su_idx u =? su_idx v) && (sstate_eqb (su_state u) StInit || sstate_eqb (su_state u) StUpgrade) &&
+         (sstate_eqb (su_state v) StTraffic || sstate_eqb (su_state v) StMetrics)
+      then let u1 := observed_sub (rc_wl i) u in br_ready_for (rc_spec i) u1 (rc_wl i) (synced_br u1 (rc_br i))
+      else true
+    | _, _ => true
+    end
+  else true.
+
+(* C06: what a restarted controller needs in order to keep waiting is in the persisted status: a reconcile that changed a
+   Service while routing traffic leaves a fresh lastUpdateTime behind (the grace wait of DoTrafficRouting is measured on it) *)
+Definition is_service_write (s : string) : bool :=
+  String.eqb s "create Service svc-canary" || String.eqb s "patch Service svc-canary" || String.eqb s "patch Service svc".
+Definition c06_wait_survives_restart (c : case) : bool :=
+  let i := x_inner c in let o := rc_obs i in
+  if in_rolling_normal c && negb (ob_err o) && negb (ob_gone o) then
+    match sub_of (rc_status i), sub_of (ob_status o) with
+    | Some u, Some v => if sstate_eqb (su_state u) StTraffic && existsb is_service_write (x_obs_writes c) then negb (su_elapsed v) else true
+    | _, _ => true
+    end
+  else true.
+
+(* C04 at every write of the reconcile *)
+Definition c04_writes_safe (c : case) : bool :=
+  let i := x_inner c in
+  let applies :=
+      in_rolling_normal c && match sub_of (rc_status i) with Some u => ftask_eqb (su_fin u) FtNone | None => false end ||
+      match finalising_reason (rc_status i), sub_of (rc_status i) with
+      | Some r, Some u => finv_b r u (x_net c) && wl_exists (rc_wl i) && wl_consistent (rc_wl i)
+      | _, _ => false
+      end in
+  if applies then writes_never_route_into_void (x_net c) (x_obs_writes c) else true.
+
 Definition judge (c : case) : list verdict :=
   [ if corresponds_tr c then VOk else VMismatch;
+    clause "C03_traffic_state_entered_only_after_pods_ready" (c03_entered_after_ready c);
+    clause "C04_no_write_routes_into_a_void" (c04_writes_safe c);
+    clause "C06_wait_survives_restart" (c06_wait_survives_restart c);
     (* F30: without a workload the revision label key is unknown and RestoreStableService is passed with the pin in place *)
     clause_known "C05_task_passed_means_done" "C05:F30"
       (negb (wl_exists (rc_wl (x_inner c))) && match sub_of (rc_status (x_inner c)) with Some u => ftask_eqb (su_fin u) FtRestoreStable | None => false end)
